@@ -52,7 +52,7 @@ void h_sjp_parse(void) {
         }
         __CPROVER_assert(ret == s_ok, "C11 parse: accept set equals the canonical-encoding specification");
         if (ret) {
-            __CPROVER_assert(proof.n_inputs == s_n && proof.n_inputs <= SECP256K1_SURJECTIONPROOF_MAX_N_INPUTS, "C11 parse: accepted object has n_inputs = b0 + 256 b1 <= 256");
+            __CPROVER_assert(secp256k1_surjectionproof_n_total_inputs(&ctx, &proof) == s_n && proof.n_inputs <= SECP256K1_SURJECTIONPROOF_MAX_N_INPUTS, "C11 parse: accepted object reports n_inputs = b0 + 256 b1 and is a valid proof object (n_inputs <= 256)");
 #ifdef EL_CONTENT   /* thorough tier: byte-for-byte content of the 8 KiB fields (ghost index k) */
             if (k < s_nb) __CPROVER_assert(proof.used_inputs[k] == input[2 + k], "C11 parse: every bitmap byte copied");
             if (k < 32 * (1 + s_pop)) __CPROVER_assert(proof.data[k] == input[2 + s_nb + k], "C11 parse: every signature byte copied");
